@@ -31,6 +31,8 @@ func runC15(w *World, r *Report) {
 	c15ValidFirst(w, r)
 	c15Ignore(w, r)
 	c15Cleanup(w, r)
+	c15IgnoreDefaults(w, r)
+	c15APIVersionDefault(w, r)
 }
 
 // stringConstsIn collects string constants (and loads of string constants declared in the package) used in fn.
@@ -533,4 +535,153 @@ func baseNameCheckEdges(fn *ssa.Function, depth int) []Edge {
 		}
 	}
 	return out
+}
+
+// c15IgnoreDefaults: the built-in ignore rules (templates/.?*) are in force whether or not the chart
+// ships a .helmignore: AddDefaults runs on every path before the directory walk.
+func c15IgnoreDefaults(w *World, r *Report) {
+	ld := w.Fn("pkg/chart/v2/loader", "LoadDir")
+	if ld == nil {
+		r.Unk("C15/IGNORE", "defaults/anchor", "-", "loader.LoadDir not found")
+		return
+	}
+	g := FullGraph(ld)
+	var adds []ssa.Instruction
+	var walk ssa.CallInstruction
+	for _, c := range callInstrs(ld) {
+		f, _ := calleeOf(c.Common())
+		if f == nil {
+			continue
+		}
+		if FuncName(f) == "(*pkg/ignore.Rules).AddDefaults" {
+			adds = append(adds, c)
+		}
+		if strings.HasSuffix(fnPkgPath(f), "internal/sympath") && f.Name() == "Walk" || fnPkgPath(f) == "path/filepath" && (f.Name() == "Walk" || f.Name() == "WalkDir") {
+			walk = c
+		}
+	}
+	if walk == nil {
+		r.Unk("C15/IGNORE", "defaults/walk", w.Pos(ld.Pos()), "the directory walk was not found in LoadDir")
+		return
+	}
+	ok := len(adds) > 0
+	if ok {
+		ex, _ := g.PathExists(entryPos(ld), posOf(walk), avoidInstrs(adds...))
+		ok = !ex
+	}
+	r.Check(ok, "C15/IGNORE", "defaults-always", w.InstrPos(walk), "the built-in ignore rules are added on every path before the walk", "the directory walk can start without the built-in ignore rules (for instance when a .helmignore exists): dot files under templates/ are loaded and packaged")
+}
+
+// c15APIVersionDefault: the loader decides where the legacy dependency files go by the chart's
+// APIVersion; a chart without one is a v1 chart, so the default must be in place before those decisions.
+func c15APIVersionDefault(w *World, r *Report) {
+	r.Rule("C15/APIVERSION-DEFAULT", "in LoadFiles every read of Metadata.APIVersion that decides how a file is classified happens after the store that defaults an empty APIVersion to v1", 2)
+	lf := w.Fn("pkg/chart/v2/loader", "LoadFiles")
+	if lf == nil {
+		r.Unk("C15/APIVERSION-DEFAULT", "anchor", "-", "loader.LoadFiles not found")
+		return
+	}
+	r.Fn(FuncName(lf))
+	g := FullGraph(lf)
+	var defStores []ssa.Instruction
+	type read struct {
+		ld  *ssa.UnOp
+		cmp *ssa.BinOp
+	}
+	var reads []read
+	for _, b := range lf.Blocks {
+		for _, in := range b.Instrs {
+			switch x := in.(type) {
+			case *ssa.Store:
+				if _, t, f := fieldNameOf(x.Addr); t == "Metadata" && f == "APIVersion" {
+					defStores = append(defStores, x)
+				}
+			case *ssa.UnOp:
+				if x.Op != token.MUL {
+					continue
+				}
+				if _, t, f := fieldNameOf(x.X); t == "Metadata" && f == "APIVersion" && x.Referrers() != nil {
+					for _, rf := range *x.Referrers() {
+						if bo, ok := rf.(*ssa.BinOp); ok && (bo.Op == token.EQL || bo.Op == token.NEQ) {
+							reads = append(reads, read{x, bo})
+						}
+					}
+				}
+			}
+		}
+	}
+	if len(defStores) == 0 {
+		r.Bad("C15/APIVERSION-DEFAULT", "default", w.Pos(lf.Pos()), "an empty APIVersion is no longer defaulted to v1")
+		return
+	}
+	// edges on which APIVersion is known to be set already (the defaulting test's other side)
+	var nonEmpty []Edge
+	for _, rd := range reads {
+		other := rd.cmp.Y
+		if other == ssa.Value(rd.ld) {
+			other = rd.cmp.X
+		}
+		if s, ok := constString(other); ok && s == "" {
+			for _, e := range condEdges(rd.cmp) {
+				if e.truth == (rd.cmp.Op == token.NEQ) {
+					nonEmpty = append(nonEmpty, e.Edge)
+				}
+			}
+		}
+	}
+	n := 0
+	for _, rd := range reads {
+		other := rd.cmp.Y
+		if other == ssa.Value(rd.ld) {
+			other = rd.cmp.X
+		}
+		if s, ok := constString(other); ok && s == "" {
+			continue // the defaulting test itself
+		}
+		n++
+		// a Chart.yaml may be absent (then Metadata is created empty by the legacy files): only paths
+		// on which Chart.yaml was decoded matter, i.e. paths through a decode into the metadata
+		ex, _ := g.PathExists(entryPos(lf), posOf(rd.ld), avoidInstrs(defStores...).withEdges(nonEmpty...))
+		viaDecode := false
+		if ex {
+			for _, c := range callInstrs(lf) {
+				f, _ := calleeOf(c.Common())
+				if f != nil && fnPkgPath(f) == "sigs.k8s.io/yaml" && strings.HasPrefix(f.Name(), "Unmarshal") {
+					if k, isC := chartYamlGuard(lf, c); isC && k {
+						if e1, _ := g.PathExists(posOf(c), posOf(rd.ld), avoidInstrs(defStores...).withEdges(nonEmpty...)); e1 {
+							viaDecode = true
+						}
+					}
+				}
+			}
+		}
+		r.Check(!viaDecode, "C15/APIVERSION-DEFAULT", fmt.Sprintf("read#%d", n), w.InstrPos(rd.ld), "the classification reads APIVersion after it was defaulted", "after Chart.yaml was decoded, APIVersion can be read for classifying a file before the empty value was defaulted to v1: a Helm 2 chart's requirements files are dropped")
+	}
+	if n == 0 {
+		r.OKTrivial("C15/APIVERSION-DEFAULT", "none", w.Pos(lf.Pos()), "no file classification depends on APIVersion")
+	}
+}
+
+// chartYamlGuard: the decode call sits behind a test f.Name == "Chart.yaml".
+func chartYamlGuard(fn *ssa.Function, c ssa.CallInstruction) (bool, bool) {
+	g := FullGraph(fn)
+	var guard []Edge
+	for _, b := range fn.Blocks {
+		for _, in := range b.Instrs {
+			if bo, ok := in.(*ssa.BinOp); ok && bo.Op == token.EQL {
+				if s, isC := constString(bo.Y); isC && s == "Chart.yaml" {
+					for _, e := range condEdges(bo) {
+						if e.truth {
+							guard = append(guard, e.Edge)
+						}
+					}
+				}
+			}
+		}
+	}
+	if len(guard) == 0 {
+		return false, false
+	}
+	ex, _ := g.PathExists(entryPos(fn), posOf(c), Avoid{}.withEdges(guard...))
+	return !ex, true
 }
